@@ -85,6 +85,9 @@ func Witnesses(prop string) []*Case {
 			Ops: cat(chainLinks(3), ops(cidr(0, 1), ann(0)), drain(6))})
 		out = append(out, &Case{Name: "w15-agent-chain4-limit2", N: 4, Limits: []int{2, 2, 2, 2}, UseAgent: true, Settle: true,
 			Ops: cat(chainLinks(4), ops(cidr(0, 1), ann(0)), drain(8))})
+		// the same with a management public key configured (typical field deployment): the limit must still reach the flooder
+		out = append(out, &Case{Name: "w15-agent-mgmt-key-chain4-limit2", N: 4, Limits: []int{2, 2, 2, 2}, UseAgent: true, MgmtKey: true, Settle: true,
+			Ops: cat(chainLinks(4), ops(cidr(0, 1), ann(0)), drain(8))})
 		out = append(out, &Case{Name: "w15-replay-limit2", N: 4, Limits: []int{2, 2, 2, 2}, Settle: true,
 			Ops: cat(ops(Op{K: "connect", A: 0, B: 1}, Op{K: "connect", A: 1, B: 2}, cidr(0, 1), ann(0)), drain(4), ops(Op{K: "connect", A: 2, B: 3}), drain(6))})
 	case "C11":
@@ -125,6 +128,27 @@ func Witnesses(prop string) []*Case {
 		out = append(out, &Case{Name: "w12-diamond", N: 4, Limits: make([]int, 4), Settle: true,
 			Ops: cat(ops(Op{K: "connect", A: 0, B: 1}, Op{K: "connect", A: 0, B: 2}, Op{K: "connect", A: 1, B: 3}, Op{K: "connect", A: 2, B: 3},
 				cidr(0, 1), cidr(3, 1), Op{K: "addlocal", A: 3, Kind: KDomain, ID: 1}, ann(0), ann(1), ann(2), ann(3)), drain(40))})
+	}
+	return out
+}
+
+// LateWitnesses are fixed cases outside the assumptions of the model (judged
+// by the monitors only); they run after all model cases.
+func LateWitnesses(prop string) []*Case {
+	var out []*Case
+	if prop == "C12" {
+		// route sets around the one-byte route count of ROUTE_ADVERTISE: 254 / 255 / 256 / 300 exit routes (+ presence)
+		// on agent 0 of a chain 0-1-2, then a late joiner 3 at the far end that learns from replays and one more
+		// announcement. Everybody must learn agent 0's presence and every one of its routes.
+		for _, r := range []int{254, 255, 256, 300} {
+			var adds []Op
+			for id := 1; id <= r; id++ {
+				adds = append(adds, Op{K: "addlocal", A: 0, Kind: KCidr, ID: id})
+			}
+			out = append(out, &Case{Name: fmt.Sprintf("w12-%d-routes", r), N: 4, Limits: make([]int, 4), Settle: true, NoModel: true,
+				Ops: cat(chainLinks(3), adds, ops(Op{K: "announce", A: 0}), drain(12), ops(Op{K: "connect", A: 2, B: 3}), drain(12),
+					ops(Op{K: "announce", A: 0}, Op{K: "announce", A: 3}), drain(24))})
+		}
 	}
 	return out
 }
